@@ -179,6 +179,61 @@ def row_payload(order, x, nvars, floor=2.0 ** -23):
     return row, dens
 
 
+def clt_root_rows_differ(n):
+    P = np.asarray(n.params, dtype=np.float64)
+    return bool(np.max(np.abs(P[n.root, 0] - P[n.root, 1])) > 1e-6)
+
+
+def ref_value(root, x, floor=2.0 ** -23):
+    """float64 value of the circuit at row x (NaN = marginalised), computed from the PARAMETERS of the objects by plain
+    recursion (no library inference code, no cached distributions): the replay oracle of history-dependent findings.
+    A Chow-Liu leaf is evaluated by enumerating its joint (root row 0, as message passing reads it)."""
+    import itertools
+    memo = {}
+
+    def clt(n):
+        P = np.exp(np.asarray(n.params, dtype=np.float64))
+        sc = list(n.scope)
+        obs = {i: int(x[v]) for i, v in enumerate(sc) if not np.isnan(x[v])}
+        tot = 0.0
+        for bits in itertools.product([0, 1], repeat=len(sc)):
+            if any(bits[i] != b for i, b in obs.items()):
+                continue
+            pr = 1.0
+            for i in range(len(sc)):
+                par = int(n.tree[i])
+                pr *= P[i, 0, bits[i]] if par < 0 else P[i, bits[par], bits[i]]
+            tot += pr
+        return tot
+
+    def go(n):
+        if id(n) in memo:
+            return memo[id(n)]
+        if isinstance(n, Sum):
+            r = sum(float(w) * go(c) for w, c in zip(n.weights, n.children))
+        elif isinstance(n, Product):
+            r = 1.0
+            for c in n.children:
+                r *= go(c)
+        elif isinstance(n, BinaryCLT):
+            r = clt(n)
+        else:
+            xv = x[n.scope[0]]
+            if np.isnan(xv):
+                r = 1.0
+            elif isinstance(n, Bernoulli):
+                r = float(n.p) if int(xv) == 1 else 1.0 - float(n.p)
+            elif isinstance(n, Categorical):
+                cats = [int(c) for c in n.categories]
+                r = float(n.probabilities[cats.index(int(xv))]) if int(xv) in cats else 0.0
+            else:
+                l = ref_logdensity(n, float(xv), floor)
+                r = math.exp(l) if l > -700 else 0.0
+        memo[id(n)] = r
+        return r
+    return go(root)
+
+
 # ----------------------------------------------------------------------------- generators
 def rand_leaf(rs, v, kinds, ncat=None):
     k = kinds[rs.randint(len(kinds))]
